@@ -4,7 +4,7 @@ from __future__ import annotations
 
 import random
 
-from harness.common import Ctx, byte_obligation, io_cases, mi, read_scenario
+from harness.common import Ctx, byte_obligation, fault_finish, fault_mode, io_cases, mi, read_scenario
 from oracles import qcow2 as spec
 from oracles.mem import SymMem, SymOpaque
 from symx import core, files, layouts, loader, replay, stubs, summary
@@ -42,10 +42,13 @@ def read_task(prop, cfg, tier, seed):
     P = spec.Params(cb, ext, dfile)
     cs = P.cs
     zlog = []
-    zl = stubs.ZlibStub(out_len=lambda key, mx: mx, log=zlog)
+    zl = stubs.ZlibStub(out_len=lambda key, mx: mx if mx else (1 << 40), log=zlog, lenient=bool(cfg.get("fault")))
     m = load(zl, summaries=cfg.get("summaries", not ext), real_cache=bool(cfg.get("prime")))
     ctx = Ctx(prop, "qcow2.read", cfg, tier, seed, engine_kw=dict(max_decisions=cfg.get("max_decisions", 1500)))
     rng = random.Random(seed)
+    fault = bool(cfg.get("fault"))
+    if fault:
+        fault_mode(ctx)
     feats = (spec.INCOMPAT_EXTL2 if ext else 0) | (spec.INCOMPAT_DATA_FILE if dfile else 0)
     core_sz = replay.deflate_core_size(cs)
     touched = N + 1
@@ -65,7 +68,8 @@ def read_task(prop, cfg, tier, seed):
         l1_size = files.word_at("img", 36, 4, "be")
         l1_off = files.word_at("img", 40, 8, "be")
         l1_off = E.assume_range(l1_off, 0, 1 << 62)
-        E.assume(l1_size * (cs * P.l2n) >= size)  # the L1 table covers the virtual disk
+        if not fault:
+            E.assume(l1_size * (cs * P.l2n) >= size)  # the L1 table covers the virtual disk
         bfo = files.word_at("img", 8, 8, "be")
         bsize = None
         if backing == "none":
@@ -105,7 +109,8 @@ def read_task(prop, cfg, tier, seed):
             l1i, l2off, ea = spec.l2_entry_addr(g, l1_off, P, mem)
             e = mem.word(ea, 8, "be")
             bm = mem.word(ea + 8, 8, "be") if ext else 0
-            E.assume(core.sym_or(l1i >= l1_size, l2off == 0, spec.wellformed_entry(e, bm, P)))
+            if not fault:
+                E.assume(core.sym_or(l1i >= l1_size, l2off == 0, spec.wellformed_entry(e, bm, P)))
         vars_ = dict(size=size, l1_size=l1_size, l1_off=l1_off, offset=offset, length=length, j=j)
         if bsize is not None:
             vars_["backing_size"] = bsize
@@ -120,6 +125,13 @@ def read_task(prop, cfg, tier, seed):
             plains = {}
             for (fname, off, ln, wbits, mx) in zlog:
                 o, l = mi(model, off), mi(model, ln)
+                if fault:
+                    # a decompression bomb: 64 allocation units of zeros in a stream of exactly the stored length
+                    plain, stream = replay.deflate_exact(o, 0, l, wbits, plain=bytes(64 * (cs)))
+                    if fname in d["files"]:
+                        d["files"][fname]["patches"].append([o, stream.hex()])
+                    d["_fault_expect"] = dict(max_inflate=cs)
+                    continue
                 plain, stream = replay.deflate_exact(o, cs, l, wbits)
                 d["files"][fname]["patches"].append([o, stream.hex()])
                 plains[o] = plain
@@ -174,6 +186,8 @@ def read_task(prop, cfg, tier, seed):
                 if f2 == fname and kind == "W":
                     a = core.SymInt(a2, ai2, 0, 1 << 70) if not isinstance(a2, int) else a2
                     sc.extra.append(core.sym_or(a + n2 <= off, a >= off + ln))
+        if fault:
+            return fault_finish(ctx, E, res, length, cs, zlog, cs)
         sv = spec.guest_byte(offset + j, l1_off, l1_size, P, mem, dmem, bmem, bsize if bsize is not None else 0)
         bad = byte_obligation(res, j, explen, sv, extra=[obj.size != size], maxlen=length if cfg.get("tail") else None)
         if cfg.get("io"):
